@@ -33,6 +33,7 @@ def run(rep):
         core = [{**s, 'faults': {**s['faults'], 'when': 'next'}, 'dev_window': (0, 600)} for s in core]
         explore.explore(rep, 'kills-d1', core, 1, ['fifo'], 'checks.oracles:oracle_c06', budget_s=1700)
 
+    rep.assumption('distinct_nontrivial = executions with pairwise different timed wire traces (every message sent / delivered / dropped with its virtual time), per scenario; distinct_outcomes = distinct per-filter process() input sequences per scenario')
     rep.set('traces_validated_against_impl', rep.coverage.get('evaluations', 0))
-    rep.set('distinct_nontrivial', rep.coverage.get('distinct_outcomes', 0))
+    rep.set('distinct_nontrivial', rep.coverage.get('distinct_timed_wire_traces', 0))
     rep.set('exhaustive', not rep.capped)
